@@ -168,3 +168,102 @@ def polynomial_from_units():
         }
         ''')])
     return [f64u, lin, quad]
+
+
+def quadratic_mul_quadratic():
+    from vx.units.algebra import contract, spec_impl
+    FIN = 'quadratic_fin(self) && quadratic_fin(rhs)'
+    final_proof = '''proof {
+            let si = sitems(lv); let n = lv.len() as int;
+            assert(gm == gmat(a, b, a.len() as int));
+            if %s {
+                assert(gm.dom() =~= tm.dom());
+                assert(klists(si, n, gm)) by {
+                    assert forall|i: int| 0 <= i < n implies gm.contains_key((#[trigger] si[i]).0) && si[i].1@ == XR::Fin(gm[si[i].0]) by { assert(tm.contains_key(lv[i].0.0@)); }
+                    assert forall|i: int, j: int| 0 <= i < j < n implies (#[trigger] si[i]).0 != (#[trigger] si[j]).0 by { assert(lv[i].0.0@ != lv[j].0.0@); }
+                }
+                assert(kfin(si)) by { assert forall|i: int| 0 <= i < n implies fin((#[trigger] si[i]).1) by { assert(tm.contains_key(lv[i].0.0@)); } }
+                lemma_kacc_listing(si, n, gm);
+                assert forall|m: Map<u64, F64>| #![trigger polynomial_val(__r, m)] polynomial_val(__r, m) == quadratic_val(self, m) * quadratic_val(rhs, m) - rem_mul_quadratic_quadratic(self, rhs, m) by {
+                    lemma_quad_titems_sum(self, m); lemma_quad_titems_sum(rhs, m);
+                    assert(ksum(gm, pw(m)) == kseq_sum(a, a.len() as int, pw(m)) * kseq_sum(b, b.len() as int, pw(m))); }
+                assert forall|m: Map<u64, F64>| #![trigger polynomial_val(__r, m)] polynomial_val(__r, m) == quadratic_val(rhs, m) * quadratic_val(self, m) - rem_mul_quadratic_quadratic(self, rhs, m) by {
+                    assert(quadratic_val(self, m) * quadratic_val(rhs, m) == quadratic_val(rhs, m) * quadratic_val(self, m)) by(nonlinear_arith); }
+            }
+            assert forall|k: u64| polynomial_ids(__r).contains(k) implies idset.contains(k) by {
+                lemma_poly_ids_mem(__r.terms@, __r.terms.len() as int, k);
+                let j = choose|j: int| 0 <= j < __r.terms.len() && #[trigger] mono_ids(__r.terms@[j].ids@, __r.terms@[j].ids.len() as int).contains(k);
+                lemma_mono_ids_mem(__r.terms@[j].ids@, __r.terms@[j].ids.len() as int, k);
+                let q = choose|q: int| 0 <= q < __r.terms@[j].ids.len() && __r.terms@[j].ids@[q] == k;
+                let i = choose|i: int| 0 <= i < lv.len() && (#[trigger] lv[i]).0.0@ == (#[trigger] __r.terms[j]).ids@;
+                assert(tm.contains_key(lv[i].0.0@));
+                assert(lv[i].0.0@[q] == k);
+            }
+        }
+        ''' % FIN
+    return Unit('Mul for Quadratic', 'quadratic.rs', 'mul', impl=r'impl Mul for Quadratic \{', sig='fn mul(self, rhs: Self) -> Self::Output', anyhow=False,
+                pre=spec_impl('mul', 'Quadratic', 'Quadratic', 'Polynomial', req='qcoo(self) && qcoo(rhs)'), wrap=('impl core::ops::Mul for Quadratic { type Output = Polynomial;', '}'),
+                header='''#[verifier::loop_isolation(false)]
+fn mul(self, rhs: Self) -> (r: Polynomial)
+        // the two loops build the EXACT product of the two term lists under canonical (sorted) id lists - nothing is dropped there -; the final collect drops the entries with
+        // |v| <= EPSILON, which is the remainder
+        ensures ''' + contract('mul', 'Quadratic', 'Quadratic', 'Polynomial'),
+                renames=[(r'let mut (\w+) = BTreeMap::new\(\);', 'terms')],
+                rsubs=[(r'let mut terms = BTreeMap::new\(\);', 'let mut terms: SMap = SMap::new();', 1),      # R28
+                       (r'\*terms\.entry\(ids\)\.or_default\(\) \+= ([^;]+);', r'let __p = \1; let ghost key = ids.0@; *terms.entry(ids).or_default() += __p;', 1),
+                       (r'terms\.into_iter\(\)\.collect\(\)\s*\}\s*$', 'let __v = smap_into_vec(terms); let ghost lv = __v@; let __r = Polynomial::from_iter(__v); __r }', 1)],
+                loops=[dict(kind='for', it='it_1', rebind='(__e.0.vclone(), __e.1)',
+                            body_proof=' proof { assert(*__e == la[it_1.index@ as int]); assert(a[it_1.index@ as int] == (la[it_1.index@ as int].0.0@, la[it_1.index@ as int].1)); }',
+                            inv='''invariant
+                a == quad_titems(self), b == quad_titems(rhs), la == __h1@, sitems(la) == a, qcoo(self), qcoo(rhs),
+                forall|key: Seq<u64>| #[trigger] terms@.contains_key(key) ==> forall|q: int| 0 <= q < key.len() ==> idset.contains(#[trigger] key[q]),
+                gm == gmat(a, b, it_1.index@ as int),
+                %s ==> kmatches(terms@, gm) && forall|x: Map<u64, F64>| #![trigger ksum(gm, pw(x))] ksum(gm, pw(x)) == kseq_sum(a, it_1.index@ as int, pw(x)) * kseq_sum(b, b.len() as int, pw(x)),''' % FIN),
+                       dict(kind='for', it='it_2', rebind='(__e.0.vclone(), __e.1)',
+                            body_proof=' proof { assert(*__e == __h2[it_2.index@ as int]); assert(b[it_2.index@ as int] == (__h2[it_2.index@ as int].0.0@, __h2[it_2.index@ as int].1)); }',
+                            inv='''invariant
+                    0 <= it_1.index@ < a.len(), sitems(__h2@) == b, id_l.0@ == a[it_1.index@ as int].0, value_l == a[it_1.index@ as int].1,
+                    forall|key: Seq<u64>| #[trigger] terms@.contains_key(key) ==> forall|q: int| 0 <= q < key.len() ==> idset.contains(#[trigger] key[q]),
+                    gm == grow(gmat(a, b, it_1.index@ as int), a[it_1.index@ as int], b, it_2.index@ as int),
+                    %s ==> kmatches(terms@, gm) && forall|x: Map<u64, F64>| #![trigger ksum(gm, pw(x))] ksum(gm, pw(x)) ==
+                        kseq_sum(a, it_1.index@ as int, pw(x)) * kseq_sum(b, b.len() as int, pw(x))
+                        + (rv(a[it_1.index@ as int].1) * pw(x)(a[it_1.index@ as int].0)) * kseq_sum(b, it_2.index@ as int, pw(x)),''' % FIN)],
+                proofs=[(('after', r'let mut terms: SMap = SMap::new\(\);'), '''
+        let ghost a = quad_titems(self); let ghost b = quad_titems(rhs); let ghost idset = quadratic_ids(self).union(quadratic_ids(rhs));
+        let ghost fa = fn_of_quadratic(self); let ghost fb = fn_of_quadratic(rhs);
+        let ghost mut gm: Map<Seq<u64>, real> = Map::empty();
+        proof { assert forall|x: Map<u64, F64>| #![trigger ksum(gm, pw(x))] ksum(gm, pw(x)) == 0real * kseq_sum(b, b.len() as int, pw(x)) by { lemma_ksum_empty::<Seq<u64>>(pw(x)); assert(0real * kseq_sum(b, b.len() as int, pw(x)) == 0real) by(nonlinear_arith); } }'''),
+                        (('after', r'let __h1 = self\.into_iter\(\);'), ' let ghost la = __h1@;'),
+                        (('after', r'\+= __p;'), '''
+                proof {
+                    let i = it_1.index@ as int; let j = it_2.index@ as int; let ai = a[i]; let bj = b[j];
+                    assert(fn_titems_ok(la, fa)); assert(fn_titems_ok(__h2@, fb));
+                    lemma_fn_titems_from(la, fa, i); lemma_fn_titems_from(__h2@, fb, j);
+                    assert(id_r.0@ == bj.0 && id_l.0@ == ai.0);
+                    assert(key == skey(bj.0 + ai.0));
+                    // ids of the key come from the two items
+                    assert forall|q: int| 0 <= q < key.len() implies idset.contains(#[trigger] key[q]) by {
+                        let k = key[q]; assert(key.contains(k));
+                        lemma_perm_mem(key, id_r.0@ + id_l.0@, k);
+                        let w = choose|w: int| 0 <= w < (id_r.0@ + id_l.0@).len() && (id_r.0@ + id_l.0@)[w] == k;
+                        if w < id_r.0@.len() { assert(__h2[j].0.0@[w] == k); } else { assert(la[i].0.0@[w - id_r.0@.len()] == k); }
+                    }
+                    let c = rv(ai.1) * rv(bj.1); let g0 = gm;
+                    if %s { assert(__p@ == XR::Fin(c)); }
+                    gm = kbump(gm, key, c);
+                    if %s {
+                        assert forall|x: Map<u64, F64>| #![trigger ksum(gm, pw(x))] ksum(gm, pw(x)) ==
+                            kseq_sum(a, i, pw(x)) * kseq_sum(b, b.len() as int, pw(x)) + (rv(ai.1) * pw(x)(ai.0)) * kseq_sum(b, j + 1, pw(x)) by {
+                            lemma_ksum_kbump(g0, pw(x), key, c);
+                            lemma_pw_merge(key, bj.0, ai.0, x);
+                            lemma_prod_step(kseq_sum(a, i, pw(x)) * kseq_sum(b, b.len() as int, pw(x)), rv(ai.1), pw(x)(ai.0), kseq_sum(b, j, pw(x)), rv(bj.1), pw(x)(bj.0));
+                        }
+                    }
+                }''' % (FIN, FIN)),
+                        (('before', r'\}\s*let __v = smap_into_vec'), '''proof { if %s {
+                let i = it_1.index@ as int;
+                assert forall|x: Map<u64, F64>| #![trigger ksum(gm, pw(x))] ksum(gm, pw(x)) == kseq_sum(a, i + 1, pw(x)) * kseq_sum(b, b.len() as int, pw(x)) by {
+                    lemma_prod_row(kseq_sum(a, i, pw(x)), rv(a[i].1) * pw(x)(a[i].0), kseq_sum(b, b.len() as int, pw(x))); } } }
+        ''' % FIN),
+                        (('before', r'let __v = smap_into_vec'), 'let ghost tm = terms@;\n        '),
+                        (('before', r'__r\s*\}\s*$'), final_proof)])
